@@ -79,6 +79,7 @@ func runC10(r *Run) {
 	r.RuleDoc("C10.R5b", "constructor and comparison agree on WHEN the node annotation overrides: for every result combination the shared lookup can return, exactly one of {constructor applies the annotation, comparison applies the setting check} holds")
 	r.RuleDoc("C10.R7", "every container is resolved: a loop over the template's containers in the constructor's helpers is never left early on a path that has not applied (or collected) the current container's override")
 	r.RuleDoc("C10.R8", "writer and reader build the node-annotation key from the same things: at every call of the functions that format the resources-annotation key, each key component has the same role (replica-set/pod namespace, ExtendedDaemonSet name, container name)")
+	r.RuleDoc("C10.R9", "the comparison never discards data of the pod it compares: inside compareCurrentPodWithNewPod's functions a fresh empty map or slice is stored into memory only in place of a nil one (under the fact `that location == nil`)")
 	r.RuleDoc("C10.R6", "hash determinism: no digest feed inside a range-over-map loop; map-collected data reaches the digest only through a slice sorted before the feeding loop")
 	r.Floor("C10.R1", 9)
 	r.Floor("C10.R2", 6)
@@ -89,6 +90,7 @@ func runC10(r *Run) {
 	r.Floor("C10.R6", 4)
 	r.Floor("C10.R7", 1)
 	r.Floor("C10.R8", 3)
+	r.Floor("C10.R9", 1)
 	r.NotCovered("value-level round trip for every template / annotation / setting (e.g. that overlaying a setting onto a pod built from it is the identity, that DeepEqual sees no defaulted fields); that the node pointer of a creation candidate is non-nil (C01); that Parameters.EDSName equals the replica set's extendeddaemonset-name label; affinity terms that conflict with the node name; the error of overwriteResourcesFromNode being replaced by SetControllerReference's result")
 
 	c := c10Anchor(r)
@@ -105,6 +107,7 @@ func runC10(r *Run) {
 	c10HashDeterminism(r)
 	c.containerLoops()
 	c.keyRoles()
+	c.comparisonKeepsPodData()
 }
 
 // ---------------------------------------------------------------------------------------------
@@ -1537,9 +1540,8 @@ func c10HashChainPod(r *Run, rule string, withStamp bool) {
 		r.Check(rule, "pod stamp source", r.Prog.Pos(ctor.Pos()), shortFunc(ctor), "pods are stamped with replicaset.Spec.TemplateGeneration under the template-hash key", okW, whyW)
 	}
 
-	top := r.Prog.Func(pkgStrategy, "compareCurrentPodWithNewPod")
+	top := c10Comparator(r)
 	if top == nil {
-		r.Fatal("anchor %s.compareCurrentPodWithNewPod not found", pkgStrategy)
 		return
 	}
 	c10ChainReader(r, rule, "template hash", top, c.md5Key, func(fn *ssa.Function, v ssa.Value) bool {
@@ -1751,7 +1753,7 @@ func c10ChainReader(r *Run, rule, label string, top *ssa.Function, key string, i
 
 func (c *c10Ctx) nodeHashChain() {
 	r := c.r
-	top := r.Prog.Func(pkgStrategy, "compareCurrentPodWithNewPod")
+	top := c10Comparator(r)
 	if top == nil {
 		return
 	}
@@ -2013,7 +2015,7 @@ func c10Consults(prog *Prog, v ssa.Value, node c10NodeRef, isName func(ssa.Value
 
 func (c *c10Ctx) comparatorConsults(higher map[string]bool) {
 	r := c.r
-	top := r.Prog.Func(pkgStrategy, "compareCurrentPodWithNewPod")
+	top := c10Comparator(r)
 	if top == nil {
 		return
 	}
@@ -3685,4 +3687,77 @@ func (c *c10Ctx) keyRoles() {
 		r.Check("C10.R8", "key "+label, r.Prog.Pos(c.ctor.Pos()), shortFunc(c.ctor),
 			"over all call chains, this component of the node resources-annotation key is always the same thing (so the comparison looks up and hashes the annotations the constructor applied)", okR, detail)
 	}
+}
+
+// ---------------------------------------------------------------------------------------------
+// R9: the comparison does not discard pod data
+
+// comparisonKeepsPodData: the comparison overlays the setting onto a copy of the pod spec and compares
+// the copy with the pod. Installing a fresh (empty) map or slice in the copy where one already exists
+// drops the pod's own entries, so a pod that was just created from the same inputs is judged outdated
+// (and deleted and recreated forever). Hence: in the functions of the comparison, a store of a fresh
+// map/slice into memory (not into a local variable) must be guarded by the must-fact that the very
+// location is nil.
+func (c *c10Ctx) comparisonKeepsPodData() {
+	r := c.r
+	top := c10Comparator(r)
+	if top == nil {
+		return
+	}
+	n := 0
+	for _, fn := range sortedFuncs(r.Prog.reachableFuncs(top)) {
+		var ff *FuncFacts
+		idx := 0
+		for _, b := range fn.Blocks {
+			for _, in := range b.Instrs {
+				st, ok := in.(*ssa.Store)
+				if !ok {
+					continue
+				}
+				switch st.Val.(type) {
+				case *ssa.MakeMap, *ssa.MakeSlice:
+				default:
+					continue
+				}
+				if _, isCell := st.Addr.(*ssa.Alloc); isCell {
+					continue // a local variable
+				}
+				if ff == nil {
+					ff = computeFacts(fn)
+				}
+				idx++
+				n++
+				key := ff.K.key(st.Addr)
+				guarded := ff.Holds(b, true, func(v ssa.Value, _ string) bool {
+					return isNilCompareOf(v, func(y ssa.Value) bool {
+						u, isL := y.(*ssa.UnOp)
+						return isL && u.Op == token.MUL && ff.K.key(u.X) == key
+					})
+				})
+				r.Check("C10.R9", fmt.Sprintf("fresh container store %d", idx), r.Prog.Pos(instrPos(st)), shortFunc(fn),
+					"a fresh map/slice is installed only where the location is known to be nil", guarded,
+					"the store replaces "+pathString(st.Addr)+" without the fact that it is nil: the entries the pod already has there are dropped from the compared copy, the pod never equals its own overlay and is deleted and recreated on every sync")
+			}
+		}
+	}
+	if n == 0 {
+		o := r.Check("C10.R9", "fresh container stores", r.Prog.Pos(top.Pos()), shortFunc(top), "no fresh map/slice is installed by the comparison", true, "")
+		o.Trivial = true
+	}
+}
+
+// c10Comparator returns the "is this pod up to date" predicate, found by what it does (see
+// Prog.podComparators): the top-most bool function of the strategy package that takes a pod and looks
+// the template-hash annotation up. nil (with a fatal report) unless there is exactly one.
+func c10Comparator(r *Run) *ssa.Function {
+	fns := sortedFuncs(r.Prog.podComparators())
+	if len(fns) != 1 {
+		var names []string
+		for _, f := range fns {
+			names = append(names, shortFunc(f))
+		}
+		r.Fatal("the pod/replica-set comparison is not uniquely identified (%d candidates: %s)", len(fns), strings.Join(names, ", "))
+		return nil
+	}
+	return fns[0]
 }
